@@ -68,6 +68,7 @@ class ContractRegistry:
         self.generic: dict[str, Contract] = {}
         self.classes: dict[str, dict] = {}  # record class name -> {'mro': [...], 'fields': {...}, 'wf': [...]}
         self.specs: dict[str, Any] = {}  # name -> ast.FunctionDef (spec function) or dict namespace
+        self.spec_consts: dict[str, Any] = {}  # UPPER_CASE literal constants of the spec files
         self.spec_modules: dict[str, str] = {}
         self.opaque_attrs: dict[tuple[str, str], tuple[str, str]] = {}
         self.exc_attrs: dict[str, str] = {}
@@ -108,6 +109,16 @@ class ContractRegistry:
             if isinstance(node, ast.FunctionDef):
                 self.specs[node.name] = node
                 self.spec_modules[node.name] = path
+            elif isinstance(node, ast.Assign) and len(node.targets) == 1 and isinstance(node.targets[0], ast.Name) \
+                    and node.targets[0].id.isupper():
+                try:
+                    val = node.value
+                    if isinstance(val, ast.Call) and isinstance(val.func, ast.Name) and val.func.id in ('frozenset', 'set') and val.args:
+                        val = val.args[0]
+                    self.spec_consts[node.targets[0].id] = ast.literal_eval(val)
+                    self.spec_modules[node.targets[0].id] = path
+                except (ValueError, SyntaxError):
+                    pass
 
     def for_prop(self, prop: str):
         return [c for c in self.contracts.values() if prop in c.props]
